@@ -50,7 +50,8 @@ def run_c01(tier, seed, res):
                      "cases_with_weight_vectors_longer_than_8", "cases_with_weight_vectors_up_to_8",
                      "matched_chars_2_bytes", "matched_chars_3_bytes", "matched_chars_4_bytes", "window_ge_9",
                      "texts_longer_than_65535", "sentences_predicted_twice_in_a_row",
-                     "cases_with_entry_cancelling_its_suffix_chain", "cases_scored_in_builds_with_alternative_scorers"],
+                     "cases_with_entry_cancelling_its_suffix_chain", "cases_scored_in_builds_with_alternative_scorers",
+                     "predictors_restored_from_their_serialised_form"],
     }
 
 
@@ -66,7 +67,7 @@ def run_c06(tier, seed, res):
         "rule": "case = generated model with >= 1 tag model + texts; after predict (boundaries kept or overwritten so that modelled "
                 "tokens occur) and fill_tags every tag, n_tags and (score storing on) every candidate score is compared with the "
                 "reference tagger; non-trivial iff at least one token with a tag model was checked",
-        "required": ["fill_tags_runs_with_unknown_boundaries_present", "models_with_more_than_65536_tag_models", "tokens_with_tag_model", "categories_with_0_candidates", "categories_with_1_candidate",
+        "required": ["fill_tags_runs_with_unknown_boundaries_present", "models_with_more_than_65536_tag_models", "cases_where_no_character_pattern_occurs_in_any_text", "predictors_restored_from_their_serialised_form", "sentences_reanalysed_by_tagless_tag_predictor", "tokens_with_tag_model", "categories_with_0_candidates", "categories_with_1_candidate",
                      "categories_with_2+_candidates", "tag_ties", "tag_ngram_matched_at_rel_0", "tag_ngram_matched_at_rel_1",
                      "tag_ngram_matched_at_rel_2", "models_with_more_than_8_classes",
                      "tokens_with_candidate_scores_compared", "models_with_empty_char_boundary_model",
@@ -103,7 +104,9 @@ def run_c14(tier, seed, res):
         "required": ["char_ngram_occurrences", "type_ngram_occurrences", "dict_word_occurrences",
                      "predictors_with_tag_prediction", "predictors_with_tag_prediction_on_tagless_model", "cases_with_trailing_bytes",
                      "type_scorer_cached_table(Wt<=3,no_tags)", "type_scorer_automaton(Wt>3)",
-                     "cases_with_weight_vectors_longer_than_8", "cases_with_weight_vectors_up_to_8"],
+                     "cases_with_weight_vectors_longer_than_8", "cases_with_weight_vectors_up_to_8",
+                     "predictors_serialised_larger_than_16MiB", "predictor_round_trips_in_other_feature_builds",
+                     "cases_with_value_equal_weight_vectors_at_different_lengths", "predictors_deserialised_from_odd_buffer_offset"],
     }
 
 
@@ -113,6 +116,18 @@ def run_c02(tier, seed, res):
     nmax = sz(tier, 9, 12)
     E.run_workload(res, "mon", "C02x", 8 * nmax, tier, seed, chunks=8 * nmax)
     E.run_workload(res, "mon", "C02r", sz(tier, 200000, 6000000), tier, seed)
+    # losslessness as a user of the predict tool sees it: the surfaces of an output line concatenate to the input line
+    sub = E.Results()
+    E.run_workload(sub, "mon", "C20p", sz(tier, 40, 600), tier, seed, extra=cli_extra("C02"), per_case_timeout=30.0, tag="c02-cli")
+    for v in sub.violations:
+        if "unescape" in v["sig"] or "predict_output_differs" in v["sig"] or "crash" in v["sig"] or ":abort:" in v["sig"]:
+            v = dict(v)
+            v["sig"] = "C02:predict_tool:" + v["sig"].split(":", 1)[1]
+            res.violations.append(v)
+    res.incidents.extend(sub.incidents)
+    res.runs.extend(sub.runs)
+    res.evals += sub.evals
+    res.add_counter("predict_tool_lines_checked_for_lossless_surfaces", sub.counters.get("lines_checked_by_reference_parser", 0))
     return {
         "rule": "exhaustive part: every label vector in {boundary, no boundary, unknown}^(n-1) for n <= %d x 4 text kinds x with/without "
                 "tags (case = one (n, kind, tags) combination); random part: n <= 60 with unknown density up to 60%%; tokens "
@@ -123,7 +138,8 @@ def run_c02(tier, seed, res):
                      "sentences_via_from_raw+boundaries_mut", "sentences_via_predict_then_boundaries_mut",
                      "sentences_via_from_partial_annotation", "sentences_via_update_raw_after_text_of_same_shape",
                      "fallback_sentences_after_rejected_update_checked", "sentences_predicted_edited_and_predicted_again",
-                     "sentences_longer_than_65535_chars"],
+                     "sentences_longer_than_65535_chars", "sentences_via_from_tokenized_with_redundant_escapes",
+                     "predict_tool_lines_checked_for_lossless_surfaces"],
         "exhaustive": True,
         "extra": {"exhaustive_scope": "all 3^(n-1) label vectors for n = 1..%d (the random part is sampled)" % nmax},
     }
@@ -132,6 +148,12 @@ def run_c02(tier, seed, res):
 # ------------------------------------------------------------------ C03
 def run_c03(tier, seed, res):
     E.run_workload(res, "mon", "C03", sz(tier, 300000, 6000000), tier, seed)
+    # token accessors are cfg-gated: the same round trips in builds without tag prediction / with alloc only
+    names = ["no-tags", "alloc-only"]
+    build_many(["feat:" + x for x in names])
+    for x in names:
+        E.run_workload(res, "feat:" + x, "C03", sz(tier, 40000, 600000), tier, seed, tag="c03-feat-%s" % x)
+        res.add_counter("reduced_feature_configurations_run", 1)
     maxlen = sz(tier, 5, 7)
     n = sum(7 ** l for l in range(maxlen + 1))
     E.run_workload(res, "mon", "C03x", n, tier, seed)
@@ -144,13 +166,18 @@ def run_c03(tier, seed, res):
         "required": ["sentences_with_escape_worthy_char_in_text", "sentences_with_tags", "sentences_with_interior_absent_tag",
                      "sentences_with_space_inside_a_tag", "sentences_with_slash_inside_a_tag",
                      "sentences_with_backslash_inside_a_tag", "sentences_with_4_byte_char", "idempotence_inputs_accepted",
-                     "idempotence_inputs_rejected", "exhaustive_strings"],
+                     "idempotence_inputs_rejected", "exhaustive_strings", "reduced_feature_configurations_run"],
     }
 
 
 # ------------------------------------------------------------------ C04
 def run_c04(tier, seed, res):
     E.run_workload(res, "mon", "C04", sz(tier, 300000, 6000000), tier, seed)
+    names = ["no-tags", "alloc-only"]
+    build_many(["feat:" + x for x in names])
+    for x in names:
+        E.run_workload(res, "feat:" + x, "C04", sz(tier, 40000, 600000), tier, seed, tag="c04-feat-%s" % x)
+        res.add_counter("reduced_feature_configurations_run", 1)
     return {
         "rule": "case = sentence with all three labels and tags on any character, tags drawn from an alphabet containing / - | space and "
                 "backslash; the written partial-annotation text is parsed by the reference parser and by the library and must give "
@@ -158,7 +185,8 @@ def run_c04(tier, seed, res):
         "required": ["sentences_with_tags", "sentences_with_unknown_boundary", "sentences_with_space_inside_a_tag",
                      "sentences_with_slash_inside_a_tag", "sentences_with_backslash_inside_a_tag",
                      "sentences_with_dash_inside_a_tag", "sentences_with_pipe_inside_a_tag", "sentences_with_interior_absent_tag",
-                     "sentences_with_more_than_255_tag_columns", "special_history_states_round_tripped"],
+                     "sentences_with_more_than_255_tag_columns", "special_history_states_round_tripped",
+                     "reduced_feature_configurations_run"],
     }
 
 
@@ -228,7 +256,8 @@ def run_c07(tier, seed, res):
                      "models_with_tag_models", "models_fully_enumerated", "shipped_model_checked", "large_model_round_trips",
                      "model_round_trips_in_reduced_feature_builds", "models_with_repeated_dictionary_word",
                      "models_with_dictionary_word_longer_than_32767_bytes",
-                     "runs_with_failing_output_device:manipulate_model", "runs_with_failing_output_device:convert_kytea_model"],
+                     "runs_with_failing_output_device:manipulate_model", "runs_with_failing_output_device:convert_kytea_model",
+                     "truncated_tool_written_files_offered_to_tools"],
         "exhaustive": True,
         "extra": {"exhaustive_scope": "per fully enumerated model: all proper prefixes, all reader/writer fault positions, all 25x255 header byte changes"},
     }
@@ -256,7 +285,7 @@ def run_c08(tier, seed, res):
                 "shuffled text list for several rounds, results compared with a sequential baseline - natively, under Miri's data-race detector with "
                 "several scheduler seeds (tiny models) and, thorough tier, under ThreadSanitizer with an instrumented std; the set of interleavings "
                 "seen natively is not observable and is not claimed; distinct = distinct (history, final predictor, text) / (model, threads, rounds)",
-        "required": ["histories_ending_on_permutation_of_final_text", "histories_ending_on_final_text_itself_with_labels", "intermediate_states_read", "reduced_build_histories_with_tagged_state_before_final_update", "histories_with_tagged_state_before_final_update", "histories_with_other_predictor_before_final",
+        "required": ["histories_with_ascii_raw_then_annotated_multibyte_then_ascii_raw", "histories_ending_on_permutation_of_final_text", "histories_ending_on_final_text_itself_with_labels", "intermediate_states_read", "reduced_build_histories_with_tagged_state_before_final_update", "histories_with_tagged_state_before_final_update", "histories_with_other_predictor_before_final",
                      "histories_with_failed_update_directly_before_final", "final_predictor_with_tags",
                      "final_predictor_storing_scores", "history_ops", "concurrent_predictions", "threads_started",
                      "cases_with_tag_prediction", "histories_with_line_longer_than_4096_chars",
@@ -310,7 +339,7 @@ def run_c10(tier, seed, res):
         "required": ["unknown_boundaries_in_corpus", "annotated_boundaries_in_corpus", "examples_with_feature_count_above_1",
                      "configs_with_window_0", "configs_with_n_greater_than_window", "configs_with_dictionary",
                      "sentences_without_any_annotation", "configs_with_window_above_128_and_long_sentence",
-                     "sentences_equal_to_the_shortest_dictionary_word"],
+                     "sentences_equal_to_the_shortest_dictionary_word", "sentences_with_length_at_multiple_of_256"],
     }
 
 
@@ -327,7 +356,7 @@ def run_c11(tier, seed, res):
                      "cases_with_large_dictionary", "configs_with_type_window_gt_char_window",
                      "configs_with_n_greater_than_window", "configs_with_window_0", "corpora_with_tags",
                      "configs_with_char_window_of_128_or_more", "configs_with_type_window_of_128_or_more",
-                     "dictionaries_with_blank_word"] +
+                     "dictionaries_with_blank_word", "configs_without_char_ngrams_and_with_unseen_dictionary"] +
                     ["solver_%d" % i for i in range(8)] +
                     ["corpus_class_%s" % c for c in ["normal", "empty", "single_sentence", "single_character", "no_word_boundary",
                                                       "only_word_boundaries", "untagged", "partially_tagged", "ambiguous_tags",
@@ -370,7 +399,8 @@ def run_c17(tier, seed, res):
                      "char_ngrams_in_files", "type_ngrams_in_files", "dictionary_words_in_files", "shipped_kytea_model_checked",
                      "files_with_every_prefix_enumerated", "files_with_char_ids_above_32767", "files_with_word_of_255_or_more_chars",
                      "tool_conversions_equal_to_library_conversion", "converted_models_larger_than_128KiB",
-                     "files_with_present_but_empty_ngram_trie"],
+                     "files_with_present_but_empty_ngram_trie", "files_with_window_of_8_or_more",
+                     "files_with_dictionary_weights_summing_beyond_16_bit"],
     }
 
 
@@ -398,7 +428,7 @@ def run_c19(tier, seed, res):
                      "non_empty_comments", "dictionaries_empty", "corrupted_csv_runs", "new_dictionaries_with_repeated_record",
                      "dictionaries_with_repeated_record", "new_dictionaries_with_word_of_8_or_more_chars",
                      "runs_with_dump_and_replace_together", "weights_with_more_than_24_significant_bits",
-                     "edits_adding_or_removing_entry_that_cancels_its_suffix"],
+                     "edits_adding_or_removing_entry_that_cancels_its_suffix", "dumps_over_a_longer_existing_file"],
     }
 
 
@@ -511,7 +541,8 @@ def run_c13(tier, seed, res):
                 "reference and writes a trace of digests; the driver compares every trace with the default build's (tags only among builds with "
                 "tag prediction); non-trivial iff a prediction was traced; distinct = distinct (model, texts) digests over all builds",
         "required": ["cross_build_trace_comparisons", "predictions_traced", "cases_with_tag_models", "type_window_up_to_3",
-                     "type_window_above_3", "weight_vectors_longer_than_8"],
+                     "type_window_above_3", "weight_vectors_longer_than_8", "converted_kytea_models_scored_in_this_build",
+                     "converted_kytea_models_with_type_byte_0x04"],
         "extra": {"builds": per_build},
     }
 
